@@ -25,6 +25,7 @@ import (
 )
 
 type vSubscriber struct {
+	start func() // begin reading events off the connection
 	conn net.Conn
 	mu   sync.Mutex
 	evs  []eventmon.EventV0
@@ -44,7 +45,7 @@ func vSubscribe(addr string, drain bool) *vSubscriber {
 		}
 	}
 	s := &vSubscriber{conn: c}
-	if drain {
+	s.start = func() {
 		go func() {
 			dec := json.NewDecoder(rd)
 			for {
@@ -58,6 +59,9 @@ func vSubscribe(addr string, drain bool) *vSubscriber {
 				s.mu.Unlock()
 			}
 		}()
+	}
+	if drain {
+		s.start()
 	}
 	return s
 }
@@ -259,6 +263,28 @@ collect:
 	case <-time.After(20 * time.Second):
 	}
 	runtime.KeepAlive(stalled) // an unreachable connection would be closed by its finalizer and stop being a stalled subscriber
+	// the stalled subscriber comes back to life: it has lost what overflowed its queue, nothing more - a certificate
+	// issued from now on reaches it
+	stalled.start()
+	time.Sleep(1500 * time.Millisecond) // it works through what was queued / buffered for it
+	resumedGets := false
+	{
+		before := len(issued)
+		issue("ssh")
+		if len(issued) > before {
+			want := issued[len(issued)-1].bytes
+			for k := 0; k < 100 && !resumedGets; k++ {
+				time.Sleep(30 * time.Millisecond)
+				stalled.mu.Lock()
+				for _, e := range stalled.evs {
+					if bytes.Equal(e.CertData, want) {
+						resumedGets = true
+					}
+				}
+				stalled.mu.Unlock()
+			}
+		}
+	}
 	fast.mu.Lock()
 	var fastIDs []int
 	gotLogins := 0
@@ -304,5 +330,5 @@ collect:
 	}
 	ev.Emit(map[string]interface{}{"i": 0, "ev": "Stream", "responded": resp, "fast": fastIDs, "maxIssueMsWithStalledSubscriber": int(maxIssue / time.Millisecond),
 		"floodMs": floodMs, "loginsMissing": missing, "loginsWrongUser": wrongUser, "federatedLoginReported": frankSeen, "loginEvents": gotLogins, "lateEvents": late, "paths": paths, "rounds": rounds,
-		"burst": burstN, "burstMismatch": burstMismatch, "unpublishedAtResponse": unpublished, "unpublishedPaths": unpublishedPaths, "publishedAtResponseChecked": tapChecked})
+		"burst": burstN, "burstMismatch": burstMismatch, "resumedSubscriberReceives": resumedGets, "unpublishedAtResponse": unpublished, "unpublishedPaths": unpublishedPaths, "publishedAtResponseChecked": tapChecked})
 }
